@@ -2,4 +2,5 @@ pub mod array;
 pub mod iter;
 pub mod range;
 pub mod slice;
+pub(crate) mod taken_slice;
 pub mod vec;
